@@ -6,6 +6,8 @@
 //! * violations are streamed through a pipe as JSON lines the moment they are found;
 //! * the CPU budget of one probe is enforced with `ITIMER_PROF` (user + system time of the batch process, which has
 //!   a single thread): default action of SIGPROF = termination, which the supervisor sees as the wait status;
+//!   memory is bounded per probe by the allocation monitor (`alloc`: single request, growth of a large buffer, heap
+//!   held at one time), so that the CPU a probe is charged does not depend on how much memory the machine has free;
 //! * stderr of the batch process goes to a private file whose tail classifies an abort (stack overflow, panic
 //!   while panicking, allocation failure).
 
@@ -53,8 +55,13 @@ pub struct BatchOut {
     pub max_valid_debug_call_us: u64,
     pub max_valid_by_kind: Vec<u64>,
     pub growth_refused: u64,
+    pub live_cap_refused: u64,
+    pub max_probe_live_heap: u64,
+    pub max_valid_live_heap: u64,
     pub forks: u64,
     pub notes: Vec<String>,
+    /// probes that returned after at least 1/100 of the CPU budget: (CPU µs, description)
+    pub slow: Vec<(u64, String)>,
 }
 
 pub struct Limits {
@@ -142,6 +149,9 @@ pub fn run_batch(
                 let r = run_one(k);
                 let dt = ((vcore::guard::thread_cpu_s() - t0) * 1e6) as u64;
                 sh.max_probe_cpu_us.fetch_max(dt, Relaxed);
+                if dt as f64 >= limits.cpu_budget_s * 1e6 / 100.0 {
+                    let _ = pipe.write_all(format!("[\"@slow\",{k},{dt}]\n").as_bytes());
+                }
                 sh.matrix[r.slot.min(SLOTS - 1)][r.oc.min(OUTCOMES - 1)].fetch_add(1, Relaxed);
                 if let Some((sig, desc, wit)) = r.violation {
                     if !local_seen.contains(&sig) {
@@ -174,6 +184,12 @@ pub fn run_batch(
         for line in String::from_utf8_lossy(&buf).lines() {
             if let Ok(v) = serde_json::from_str::<Value>(line) {
                 let sig = v[0].as_str().unwrap_or("?").to_string();
+                if sig == "@slow" {
+                    if out.slow.len() < 8 {
+                        out.slow.push((v[2].as_u64().unwrap_or(0), describe(v[1].as_u64().unwrap_or(0) as usize).2));
+                    }
+                    continue;
+                }
                 if !seen_sigs.contains(&sig) {
                     seen_sigs.push(sig.clone());
                     out.violations.push((sig, v[1].as_str().unwrap_or("").to_string(), v[2].clone()));
@@ -226,14 +242,23 @@ pub fn run_batch(
             if rk == 2 {
                 out.growth_refused += 1;
             }
+            if rk == 4 {
+                out.live_cap_refused += 1;
+            }
             if out.resource_limited.len() < 3 {
                 let why = match rk {
                     1 => "single request above the limit".to_string(),
                     2 => format!("growth of a buffer that already held {rold} bytes"),
+                    4 => format!("the probe already held {} MiB of heap, the most one probe may hold at a time", crate::alloc::LIVE_CAP.load(Relaxed) >> 20),
                     _ => "the system allocator returned null (RLIMIT_AS)".to_string(),
                 };
                 out.resource_limited.push(format!("{long}: allocation request of {rsize} bytes refused ({why}), process ended with {how}"));
             }
+        } else if libc::WIFSIGNALED(status) && libc::WTERMSIG(status) == libc::SIGKILL {
+            // no panic, abort, stack overflow or fault ends a process with SIGKILL: the kernel's out-of-memory
+            // killer (or an operator) did; no verdict on the probe
+            out.matrix[slot][OC_RESOURCE] += 1;
+            out.notes.push(format!("the batch process was ended by SIGKILL from outside while running this probe (out-of-memory killer or operator; no verdict): {long}"));
         } else {
             out.matrix[slot][OC_FATAL] += 1;
             let class = if tail.contains("overflowed its stack") {
@@ -269,6 +294,8 @@ pub fn run_batch(
     out.max_probe_cpu_us = sh.max_probe_cpu_us.load(Relaxed);
     out.max_valid_cpu_us = sh.max_valid_cpu_us.load(Relaxed);
     out.max_valid_debug_call_us = sh.max_valid_debug_call_us.load(Relaxed);
+    out.max_probe_live_heap = sh.max_probe_live_heap.load(Relaxed);
+    out.max_valid_live_heap = sh.max_valid_live_heap.load(Relaxed);
     out.max_valid_by_kind = sh.max_valid_by_kind.iter().map(|a| a.load(Relaxed)).collect();
     out
 }
